@@ -568,6 +568,9 @@ func (e *termEval) term1(v ssa.Value, at ssa.Instruction, fr *frame) *Term {
 	case *ssa.Call:
 		return e.callResult(x, 0, fr)
 	case *ssa.Field:
+		if t := e.structField(x.X, x.Field, at, fr, 0); t != nil {
+			return t
+		}
 		return &Term{Kind: "field", Name: fieldOfField(x).Name(), Args: []*Term{e.term(x.X, at, fr)}}
 	case *ssa.Slice:
 		return &Term{Kind: "call", Name: "slice", Args: []*Term{e.term(x.X, at, fr)}}
@@ -655,6 +658,8 @@ func (e *termEval) defsTerm(l loc, ds defset, at ssa.Instruction, fr *frame) *Te
 				ts = append(ts, ct)
 			} else if c, ok := src.(*ssa.Const); ok && c.Value == nil {
 				ts = append(ts, &Term{Kind: "zero", Name: "reset"})
+			} else if sf := e.structField(src, d.col, d.store, fr, 0); sf != nil {
+				ts = append(ts, sf)
 			} else {
 				ts = append(ts, &Term{Kind: "field", Name: fmt.Sprint(d.col), Args: []*Term{e.term(src, d.store, fr)}})
 			}
@@ -1300,6 +1305,76 @@ func (e *termEval) constructedField(obj ssa.Value, field int, fr *frame) *Term {
 			}
 			ts = append(ts, e.defsTerm(l, ds, ret, cfr))
 		}
+	}
+	if len(ts) == 0 {
+		return nil
+	}
+	return mkPhi(ts)
+}
+
+// structField: the term of field `field` of a struct VALUE: a load of a struct the engine tracks
+// field by field, the struct result of an inlinable package helper, or a phi of such.
+func (e *termEval) structField(v ssa.Value, field int, at ssa.Instruction, fr *frame, depth int) *Term {
+	m := e.m
+	if depth > 4 {
+		return nil
+	}
+	v = stripConv(v)
+	switch x := v.(type) {
+	case *ssa.UnOp:
+		if x.Op != token.MUL {
+			return nil
+		}
+		fn := x.Parent()
+		state := m.reaching(fn).at[x]
+		if state == nil {
+			state = map[loc]defset{}
+		}
+		l := loc{m.objOf(x.X, state), field}
+		ds, have := state[l]
+		if !have {
+			ds = defset{entryDef}
+		}
+		return e.defsTerm(l, ds, x, fr)
+	case *ssa.Phi:
+		var ts []*Term
+		for _, ed := range x.Edges {
+			t := e.structField(ed, field, at, fr, depth+1)
+			if t == nil {
+				return nil
+			}
+			ts = append(ts, t)
+		}
+		return mkPhi(ts)
+	case *ssa.Extract:
+		call, ok := x.Tuple.(*ssa.Call)
+		if !ok {
+			return nil
+		}
+		return e.structFieldOfCall(call, x.Index, field, fr, depth)
+	case *ssa.Call:
+		return e.structFieldOfCall(x, 0, field, fr, depth)
+	}
+	return nil
+}
+
+func (e *termEval) structFieldOfCall(call *ssa.Call, idx, field int, fr *frame, depth int) *Term {
+	m := e.m
+	callee := call.Common().StaticCallee()
+	if callee == nil || !m.inPkg(callee) || len(callee.Blocks) == 0 || fr == nil || fr.depth >= 3 || !m.isWriteHelper(callee) {
+		return nil
+	}
+	cfr := fr.inline(call, callee)
+	var ts []*Term
+	for _, ret := range returnsOf(callee) {
+		if idx >= len(ret.Results) || m.isFailureReturn(ret) {
+			continue
+		}
+		t := e.structField(ret.Results[idx], field, ret, cfr, depth+1)
+		if t == nil {
+			return nil
+		}
+		ts = append(ts, t)
 	}
 	if len(ts) == 0 {
 		return nil
